@@ -1,0 +1,53 @@
+//go:build verif
+// +build verif
+
+package simdjson
+
+// Verification hooks (build tag "verif"). Nothing here changes behaviour;
+// the wrappers only expose internals to an external test harness.
+
+// VerifHook, when non-nil, is called at the stage-1/stage-2 hand-off points.
+// It may block to force a schedule.
+var VerifHook func(ev int, a, b uint64)
+
+// Hand-off events.
+const (
+	VerifEvSlotAcquired = 1 // stage 1: a = buffersOffset after increment, b = slot
+	VerifEvBeforeSend   = 2 // stage 1: a = buffersOffset, b = number of indexes
+	VerifEvAfterSend    = 3 // stage 1: a = buffersOffset
+	VerifEvBeforeTerm   = 4 // stage 1: before sending the terminator
+	VerifEvBeforeRecv   = 5 // stage 2: current buffer exhausted, about to receive
+	VerifEvAfterRecv    = 6 // stage 2: a = first index of received buffer (or ^0 for the terminator), b = length
+	VerifEvDrain        = 7 // a drain loop iteration
+	VerifEvStage1Done   = 8 // a = 1 if stage 1 succeeded
+	VerifEvStage2Done   = 9 // a = 1 if stage 2 succeeded
+)
+
+func verifEvent(ev int, a, b uint64) {
+	if h := VerifHook; h != nil {
+		h(ev, a, b)
+	}
+}
+
+// VerifParseNumber exposes parseNumber.
+func VerifParseNumber(buf []byte) (id, val uint64) { return parseNumber(buf) }
+
+// VerifAppendFloat exposes appendFloat.
+func VerifAppendFloat(dst []byte, f float64) ([]byte, error) { return appendFloat(dst, f) }
+
+// VerifEscapeBytes exposes escapeBytes.
+func VerifEscapeBytes(dst, src []byte) []byte { return escapeBytes(dst, src) }
+
+// VerifRyuShortest exposes the digits and decimal point chosen by ryuFtoaShortest.
+func VerifRyuShortest(mant uint64, exp int) (digits []byte, dp int) {
+	var d decimalSlice
+	var buf [32]byte
+	d.d = buf[:]
+	ryuFtoaShortest(&d, mant, exp)
+	return append([]byte(nil), d.d[:d.nd]...), d.dp
+}
+
+// VerifRing reports the live ring constants.
+func VerifRing() (slots, size, closeAt int) {
+	return indexSlots, indexSize, indexSizeWithSafetyBuffer
+}
